@@ -389,12 +389,9 @@ fn balance(r: &mut Report, shards: usize) {
 	let mut buckets: Vec<Vec<String>> = vec![vec![]; k];
 	for (i, c) in cs.into_iter().enumerate() { let round = i / k; let pos = if round % 2 == 0 { i % k } else { k - 1 - i % k }; buckets[pos].push(c); }
 	let per = buckets.iter().map(|b| b.len()).max().unwrap_or(1).max(1);
-	// buckets differ by at most one case; pad nothing, just make the chunk size the larger one and fill in order
 	r.shard_size = per;
 	let mut flat = vec![];
-	let short: Vec<String> = vec![];
-	let _ = short;
-	// a bucket that is one short borrows nothing: chunks() cuts by count, so order buckets with `per` cases first
+	// chunks() cuts by count: buckets with `per` cases first, those that are one short last
 	buckets.sort_by_key(|b| std::cmp::Reverse(b.len()));
 	for b in buckets { flat.extend(b); }
 	r.cases = flat;
